@@ -24,7 +24,8 @@ REQUIRED_COUNTERS = {"observations": {"quick": 20000, "thorough": 400000},
                      "refusals_outside_checked": {"quick": 500, "thorough": 10000},
                      "threaded_observations": {"quick": 3000, "thorough": 60000},
                      "thread_switches_between_observations": {"quick": 1000, "thorough": 20000},
-                     "stub_checks": {"quick": 3000, "thorough": 60000}}
+                     "stub_checks": {"quick": 3000, "thorough": 60000},
+                     "linepause_cases": {"quick": 50, "thorough": 50}}
 SHARD_TIMEOUT = {"quick": 400, "thorough": 5400}
 INTERPS = ["3.12", "3.11", "3.10", "3.9"]
 
@@ -339,4 +340,76 @@ def worker(spec):
                 if problems:
                     res.violation(kind="option scoping across threads", thread=i, threads=nthreads,
                                   tree=describe(node), problems=problems[:4], interp=interp)
+    # ---- line-level pauses inside the option push/restore code --------------------------------------
+    # Thread A is stopped at its k-th executed line inside extract / extract_outermost / extract_child /
+    # fill_context / ExtractOptions.push (sys.settrace in that thread only) while thread B performs a
+    # whole extraction with other options; then A resumes.  Each thread must have observed only its own.
+    from stackscope import _extract as EX
+    pause_codes = {EX.extract.__code__, EX.extract_outermost.__code__, EX.extract_child.__code__,
+                   EX.fill_context.__code__}
+    push = EX.ExtractOptions.push
+    pause_codes.add(getattr(push, "__wrapped__", push).__code__)
+    for k in range(1, 120):
+        if budget.over():
+            res.count("budget_cut")
+            break
+        progA = gen(min(spec["depth"], 3), (None, None), True)
+        progB = gen(min(spec["depth"], 3), (None, None), True)
+        paused = threading.Event()
+        resume = threading.Event()
+        st = {"n": 0, "hit": False}
+        out = {}
+
+        def local_tracer(frame, event, arg):
+            if event == "line" and not st["hit"]:
+                st["n"] += 1
+                if st["n"] == k:
+                    st["hit"] = True
+                    paused.set()
+                    resume.wait(30)
+            return local_tracer
+
+        def global_tracer(frame, event, arg):
+            return local_tracer if frame.f_code in pause_codes else None
+
+        def thread_a():
+            tls.checkpoint = None
+            sys.settrace(global_tracer)
+            try:
+                out["a"] = run_top(progA)
+            except BaseException as ex:  # noqa
+                out["a_exc"] = repr(ex)
+            finally:
+                sys.settrace(None)
+
+        def thread_b():
+            tls.checkpoint = None
+            try:
+                out["b"] = run_top(progB)
+            except BaseException as ex:  # noqa
+                out["b_exc"] = repr(ex)
+
+        ta = threading.Thread(target=thread_a, daemon=True)
+        ta.start()
+        if not paused.wait(5):
+            resume.set()
+            ta.join(30)
+            if k > 40:
+                break
+            continue
+        tb = threading.Thread(target=thread_b, daemon=True)
+        tb.start()
+        tb.join(30)
+        resume.set()
+        ta.join(30)
+        res.count("linepause_cases")
+        for who, prog in (("a", progA), ("b", progB)):
+            if who + "_exc" in out:
+                res.violation(kind="option scoping (line pause)", thread=who, error=out[who + "_exc"], interp=interp)
+                continue
+            problems, obs, ar, stubs = out[who]
+            account(prog, obs, ar, stubs, True)
+            if problems:
+                res.violation(kind="option scoping (line pause)", thread=who, paused_at_line_event=k,
+                              tree=describe(prog), problems=problems[:4], interp=interp)
     return res
